@@ -88,6 +88,25 @@ def vcheck(args, repo, out, seed=None):
     return p.returncode, p.stdout.decode("utf-8", "replace")
 
 
+HARVEST = False
+
+
+def harvest(pid, name, replay):
+    """keep a replay that fails on the changed tree and passes on the unchanged one as a saved regression input"""
+    d = os.path.join(runner.HOME, "regress", pid)
+    os.makedirs(d, exist_ok=True)
+    try:
+        if os.path.getsize(replay) > 200000:
+            return
+        with open(replay) as f:
+            case = json.load(f)
+        case["origin"] = name
+        with open(os.path.join(d, name + ".json"), "w") as f:
+            json.dump(case, f, indent=1, sort_keys=True)
+    except (OSError, ValueError):
+        pass
+
+
 def test_mutant(m, with_tests, tier_override=None):
     t0 = time.time()
     res = {"name": m["name"], "props": {}, "realistic": None}
@@ -121,6 +140,8 @@ def test_mutant(m, with_tests, tier_override=None):
                 rc_o, _ = vcheck([pid, "replay", replay], ORIG, out)
                 r.update({"caught": True, "replay_on_mutant": rc_m, "replay_on_original": rc_o,
                           "first": text[text.index("VIOLATION"):][:500]})
+                if HARVEST and rc_m == 1 and rc_o == 0:
+                    harvest(pid, m["name"], replay)
             else:
                 r.update({"caught": False, "tail": text[-600:]})
             res["props"][pid] = r
@@ -185,6 +206,11 @@ def seeded(args):
                 for tier in meta.get("tiers", ["quick"]):
                     rc, text = vcheck([pid, tier], d, out)
                     rows.append((name, "%s %s -> rc=%d %s" % (pid, tier, rc, "CAUGHT" if rc == 1 and "VIOLATION property=%s" % pid in text else "missed")))
+                    mm = re.search(r"VIOLATION property=%s replay=(\S+)" % pid, text)
+                    if HARVEST and rc == 1 and mm:
+                        rp = mm.group(1)
+                        if vcheck([pid, "replay", rp], d, out)[0] == 1 and vcheck([pid, "replay", rp], ORIG, out)[0] == 0:
+                            harvest(pid, "seeded-" + name, rp)
         finally:
             shutil.rmtree(d, ignore_errors=True)
     for r in rows:
@@ -193,6 +219,10 @@ def seeded(args):
 
 
 def main(argv):
+    global HARVEST
+    if "--harvest" in argv:
+        HARVEST = True
+        os.environ["VERIF_NO_REGRESS"] = "1"      # the saved inputs themselves must not mask what the generators find
     if "--export" in argv:
         return export()
     if "--seeded" in argv:
